@@ -350,6 +350,11 @@ def write_coq(classes, progs, res, repo):
     L.append("Definition store_class : N := %d." % code.get("P", 0))
     L.append("Definition state_class : N := %d." % code.get("S", 0))
     L.append("Definition structural_classes : list N := [%s]." % "; ".join(str(code[n]) for n in ("S", "M", "C", "T") if n in code))
+    L.append("Definition map_class : N := %d." % code.get("M", 0))
+    L.append("(** setup_channel (Node entry point and SetupChannel message): the channel record and the tracker are")
+    L.append("    written inside the channel-map section that publishes the ready channel *)")
+    L.append("Definition setup_progs : list program := [%s]." % "; ".join(
+        "p_" + p["name"] for p in progs if p["name"] not in excl and p["name"] in ("setup_channel", "h6_setup_channel")))
     L.append("(** the allowlist requests (their store write must be inside the node-state section) *)")
     L.append("Definition allowlist_progs : list program := [%s]." % "; ".join(
         "p_" + p["name"] for p in progs if p["name"] not in excl and p["name"].startswith("allowlist_")))
